@@ -22,6 +22,9 @@ import (
 const (
 	v6Valid     = 120 // seconds
 	v6Preferred = 60
+	// v6Enumerable: of a pool with more values than this the harness lists only the first ones (as targets of the
+	// "free value" symbols and as the bound of a walk); the oracle never reads the list
+	v6Enumerable = 4096
 )
 
 // ---- loopback socket pairs (created outside bubbles) ------------------------
@@ -106,16 +109,18 @@ func (p *sockPair) recvNow() [][]byte {
 // ---- world ------------------------------------------------------------------
 
 type v6cfg struct {
-	name     string
-	addrPool string // CIDR ("" = none)
-	pdPool   string
-	pdLen    uint8
-	mode     string // na | pd | both
-	clients  int
-	hostile  int
-	core     bool
-	focus    string // "dr": the decline / release / hostile-request / pool-cycling alphabet
-	legacy   bool   // without the symbols naming foreign / free / out-of-pool values and without pool cycling
+	name       string
+	addrPool   string // CIDR ("" = none)
+	pdPool     string
+	pdLen      uint8
+	mode       string // na | pd | both
+	clients    int
+	hostile    int
+	core       bool
+	focus      string // "dr": the decline / release / hostile-request / pool-cycling alphabet
+	legacy     bool   // without the symbols naming foreign / free / out-of-pool values and without pool cycling
+	walkCap    int    // > 0: how many fresh clients a pool cycle / the final drain may use (default 40: the tiny pools)
+	stateEvery int    // > 1: the lease table / pool comparison runs on every stateEvery-th message only (large pools)
 }
 
 type v6client struct {
@@ -154,6 +159,7 @@ type v6world struct {
 	nAddr   int
 	nPfx    int
 	fresh   int
+	stateN  int
 	allNA   []string // every address of the pool ("na:..."), computed independently of the pool's own arithmetic
 	allPD   []string // every delegable prefix ("pd:...")
 }
@@ -194,14 +200,20 @@ func newV6World(cfg v6cfg, r *rand.Rand) *v6world {
 	}
 	if sc.AddressPool != "" {
 		w.addrNet = netip.MustParsePrefix(cfg.addrPool).Masked()
-		w.nAddr = 1<<(128-w.addrNet.Bits()) - 1
+		w.nAddr = v6Enumerable // the harness enumerates at most this many values of a large pool (targets and walk bounds only)
+		if hb := 128 - w.addrNet.Bits(); hb < 12 {
+			w.nAddr = 1<<hb - 1
+		}
 		for a, i := w.addrNet.Addr().Next(), 0; i < w.nAddr; a, i = a.Next(), i+1 {
 			w.allNA = append(w.allNA, "na:"+a.String())
 		}
 	}
 	if sc.PrefixPool != "" {
 		w.pdNet = netip.MustParsePrefix(cfg.pdPool).Masked()
-		w.nPfx = 1 << (int(cfg.pdLen) - w.pdNet.Bits())
+		w.nPfx = v6Enumerable
+		if ib := int(cfg.pdLen) - w.pdNet.Bits(); ib < 12 {
+			w.nPfx = 1 << ib
+		}
 		for i := 0; i < w.nPfx; i++ {
 			b := w.pdNet.Addr().As16()
 			for bit := 0; bit < int(cfg.pdLen)-w.pdNet.Bits(); bit++ { // index bit `bit` (from the right) sits at prefix bit pdLen-1-bit
@@ -502,6 +514,14 @@ func (w *v6world) freeValues() *v6over {
 	return o
 }
 
+// cap: how many fresh clients a cycle / drain may use.
+func (w *v6world) cap() int {
+	if w.cfg.walkCap > 0 {
+		return w.cfg.walkCap
+	}
+	return 40
+}
+
 // cycle: k fresh clients SOLICIT + REQUEST (or SOLICIT with rapid commit) until the server has nothing left
 // for a new client - k is at most the size of the larger pool plus one, so every position of both free
 // lists is visited - and then RELEASE what they got (in random order in random walks). A fresh client
@@ -511,7 +531,7 @@ func (w *v6world) cycle(name string, rapid bool) bool {
 	w.m.log("%s", name)
 	var got []*v6client
 	exhausted := false
-	for i := 0; i <= max(w.nAddr, w.nPfx) && i < 40; i++ {
+	for i := 0; i <= max(w.nAddr, w.nPfx) && i < w.cap(); i++ {
 		c := w.freshClient()
 		if rapid {
 			w.msg(c, "SOLICIT-RC", d6.MessageTypeSolicit, nil, true)
@@ -724,7 +744,7 @@ func (w *v6world) msg(c *v6client, name string, mt d6.MessageType, sid d6.DUID, 
 				if b, ok := w.m.get(w.m.bound, c.name, k); ok && !ov.badIA {
 					own = hasField(asked, b.v)
 				}
-				w.m.onRelease(c.name, k, own, now, w.serverLease(c, k) != "" && w.serverLease(c, k) == heldBefore[k])
+				w.m.onRelease(c.name, k, own, now, !own && heldBefore[k] != "" && w.serverLease(c, k) == heldBefore[k]) // kept is only read when the message did not name the own value
 				if own {
 					w.m.count("releases_of_own_binding", 1)
 				}
@@ -823,7 +843,7 @@ func (w *v6world) finish() {
 	w.m.endStep()
 	w.m.count("available_again_obligations_checked", len(w.m.oblig)) // pending when the drain starts
 	obtained, exhausted := 0, false
-	for i := 0; i < max(w.nAddr, w.nPfx)+2 && i < 40; i++ {
+	for i := 0; i < max(w.nAddr, w.nPfx)+2 && i < w.cap(); i++ {
 		c := w.freshClient()
 		w.msg(c, "SOLICIT", d6.MessageTypeSolicit, w.sid, false)
 		w.m.endStep()
@@ -844,6 +864,11 @@ func (w *v6world) finish() {
 
 // checkState compares lease table, pools and reference table.
 func (w *v6world) checkState(comp string) {
+	if w.cfg.stateEvery > 1 {
+		if w.stateN++; w.stateN%w.cfg.stateEvery != 0 {
+			return
+		}
+	}
 	now := time.Now()
 	leases := w.srv.VerifC02Leases()
 	snap := w.srv.VerifC02Pools()
